@@ -380,7 +380,9 @@ def _search_view(searcher, word):
     from whoosh import query
     srt = [(h["k"], h["u"]) for h in searcher.search(query.Every(), sortedby="k", limit=None)]
     sc = [(h["u"], repr(h.score)) for h in searcher.search(query.Term("t", word), limit=None)]
-    return srt, sc
+    # document numbers are part of the view: they are what delete_document() and stored_fields() take
+    nums = [(dn, st.get("u")) for dn, st in searcher.reader().iter_docs()]
+    return srt, sc, nums
 
 
 def _search_view_check(self, got):
@@ -408,7 +410,7 @@ def _search_view_check(self, got):
     mine = run(srch, "the held searcher")
     if mine is None:
         return
-    srt, sc = mine
+    srt, sc, nums = mine
     s.count("search_view_checks")
     uids = sorted(u for _, u in srt)
     live = sorted(got["docs"])
@@ -443,6 +445,9 @@ def _search_view_check(self, got):
     if theirs[0] != srt:
         raise Violation("refresh_equals_fresh_open", "%s: Every() sorted by k gives %s, a fresh searcher of the same generation gives %s" % (where, srt[:10], theirs[0][:10]),
                         sig="refresh_equals_fresh_open:sorted_search")
+    if theirs[2] != nums:
+        raise Violation("refresh_equals_fresh_open", "%s: numbers its documents %s, a fresh searcher of the same generation %s" % (where, nums[:10], theirs[2][:10]),
+                        sig="refresh_equals_fresh_open:document_numbers")
     if theirs[1] != sc:
         raise Violation("refresh_equals_fresh_open", "%s: Term(t,%s) scores %s, a fresh searcher of the same generation scores %s" % (where, word, sc[:6], theirs[1][:6]),
                         sig="refresh_equals_fresh_open:scored_search")
